@@ -209,7 +209,7 @@ func zvec(v []float64, k int) string {
 
 var exportFmts = []string{"ply-ascii", "ply-binary", "obj", "stl", "gltf", "obj-mtl", "obj-named", "gltf-text",
 	// read-only queries of the modeling API (round 4): they hand back no mesh, the pool is re-read afterwards
-	"bbox", "octree", "neighbors", "prims", "queries", "voxelize", "iterators", "march-field", "scanpar"}
+	"bbox", "octree", "neighbors", "prims", "queries", "voxelize", "iterators", "march-field", "scanpar", "gltf-two"}
 
 func fmtNo(f string) int {
 	for i, s := range exportFmts {
@@ -454,13 +454,20 @@ func apply(op Op, pool []modeling.Mesh) (ms []modeling.Mesh, status string, coq 
 			case "obj-named":
 				err = obj.WriteMeshes([]obj.ObjMesh{{Name: "a", Mesh: m}, {Name: "b", Mesh: m}}, "m.mtl", &buf)
 			case "gltf-text":
-				mm := m
-				err = gltf.WriteText(gltf.PolyformScene{Models: []gltf.PolyformModel{{Name: "m", Mesh: &mm}}}, &buf)
+				// consumers that take the mesh BY POINTER get the address of the pool member itself (not of a copy):
+				// a writer that stores through the pointer changes what the caller's variable reports
+				err = gltf.WriteText(gltf.PolyformScene{Models: []gltf.PolyformModel{{Name: "m", Mesh: &pool[op.I]}}}, &buf)
+			case "gltf-two":
+				// the same member twice (the writer tracks meshes by pointer) and its neighbour in the pool
+				models := []gltf.PolyformModel{{Name: "a", Mesh: &pool[op.I]}, {Name: "b", Mesh: &pool[op.I]}}
+				if op.I+1 < len(pool) {
+					models = append(models, gltf.PolyformModel{Name: "c", Mesh: &pool[op.I+1]})
+				}
+				err = gltf.WriteBinary(gltf.PolyformScene{Models: models}, &buf)
 			case "bbox", "octree", "neighbors", "prims", "queries", "voxelize", "iterators", "march-field", "scanpar":
 				readOnly(op.Fmt, m)
 			default:
-				mm := m
-				err = gltf.WriteBinary(gltf.PolyformScene{Models: []gltf.PolyformModel{{Name: "m", Mesh: &mm}}}, &buf)
+				err = gltf.WriteBinary(gltf.PolyformScene{Models: []gltf.PolyformModel{{Name: "m", Mesh: &pool[op.I]}}}, &buf)
 			}
 			if err != nil {
 				exportErrors++
